@@ -877,6 +877,103 @@ func flapper(w *world, seed int64) {
 	}
 }
 
+// ---------- IDLE on a mailbox that changes in bulk, dropped without DONE ----------
+
+const idleBox = "idlebox"
+
+// bulkChanger keeps changing a flag on every message of idlebox: each STORE becomes, for every idling session, one update
+// that is written out as one FETCH response per message.
+func bulkChanger(w *world, seed int64) {
+	defer w.wg.Done()
+	for {
+		select {
+		case <-w.stop:
+			return
+		default:
+		}
+		c, err := imapc.DialTimeout(w.s.Addr, 2*time.Second)
+		if err != nil {
+			time.Sleep(5 * time.Millisecond)
+			continue
+		}
+		x := &sess{w: w, id: 902, rng: rand.New(rand.NewSource(seed)), user: "user", c: c, state: "greeted"}
+		if r, ok := x.cmd("LOGIN user pass"); ok && r.Status == "OK" {
+			x.state = "authenticated"
+			if r, ok := x.cmd("SELECT " + idleBox); ok && r.Status == "OK" {
+				x.state = "selected"
+				for i := 0; ; i++ {
+					select {
+					case <-w.stop:
+						c.Close()
+						return
+					default:
+					}
+					op := "+FLAGS.SILENT"
+					if i%2 == 1 {
+						op = "-FLAGS.SILENT"
+					}
+					if _, ok := x.cmd("STORE 1:* " + op + " (bulk)"); !ok {
+						break
+					}
+					stat("bulk-stores")
+				}
+			}
+		}
+		c.Close()
+	}
+}
+
+// idleDropper: SELECT idlebox, IDLE, wait until the first FETCH of a bulk change arrives, then drop the connection without
+// DONE while the rest of that change is still being written (reset, or plain close).
+func idleDropper(w *world, seed int64) {
+	defer w.wg.Done()
+	rng := rand.New(rand.NewSource(seed))
+	for {
+		select {
+		case <-w.stop:
+			return
+		default:
+		}
+		c, err := imapc.DialTimeout(w.s.Addr, 2*time.Second)
+		if err != nil {
+			time.Sleep(5 * time.Millisecond)
+			continue
+		}
+		x := &sess{w: w, id: 903, rng: rng, user: "user", c: c, state: "greeted"}
+		func() {
+			defer c.Close()
+			if r, ok := x.cmd("LOGIN user pass"); !ok || r.Status != "OK" {
+				return
+			}
+			x.state = "authenticated"
+			if r, ok := x.cmd("SELECT " + idleBox); !ok || r.Status != "OK" {
+				return
+			}
+			x.state = "selected"
+			if c.SendRaw([]byte("I1 IDLE\r\n")) != nil {
+				return
+			}
+			deadline := time.Now().Add(400 * time.Millisecond)
+			for time.Now().Before(deadline) {
+				l, err := c.ReadLine(time.Until(deadline) + time.Millisecond)
+				if err != nil {
+					if isTimeout(err) {
+						break
+					}
+					return
+				}
+				if strings.Contains(l.Text, " FETCH ") {
+					break
+				}
+			}
+			if rng.Intn(3) > 0 {
+				c.Abort()
+			}
+			stat("end:drop-in-idle-during-bulk-update")
+		}()
+	}
+}
+
 // ---------- parked connections: one per protocol state, left OPEN by the client until the leak check is over ----------
 
 type parked struct {
@@ -1084,6 +1181,12 @@ func main() {
 				c.Append(b, "", msgLiteral(rng, "init"))
 			}
 		}
+		if u == "user" {
+			c.Cmd("CREATE " + idleBox)
+			for i := 0; i < 30; i++ {
+				c.Append(idleBox, "", msgLiteral(rng, "idle"))
+			}
+		}
 		c.Cmd("LOGOUT")
 		c.Close()
 	}
@@ -1117,6 +1220,13 @@ func main() {
 			}
 		}
 		stat(fmt.Sprintf("pooled-deletions:%d", n))
+	}
+	// IDLE sessions on a mailbox that another session changes in bulk, dropped without DONE in the middle of an update
+	w.wg.Add(1)
+	go bulkChanger(w, *seed*19+3)
+	for i := int64(0); i < 3; i++ {
+		w.wg.Add(1)
+		go idleDropper(w, *seed*23+1+i)
 	}
 	for i := int64(0); i < 3; i++ {
 		w.wg.Add(1)
